@@ -224,7 +224,9 @@ fn data_predicates(id: u8, mask: u32) -> Result<bool, Fail> {
 }
 
 /// end to end through the payload validator: IHW(mask) TDH <word with id> and see whether the word is reported
-fn e2e_data(id: u8, mask: u32, running: bool) -> Result<bool, Fail> {
+/// `pos` 0: the word directly follows the TDH (start of data, where ID 0xF8 is a calibration word);
+/// `pos` 1: one data word lies in between (from there on 0xF8 is a data word with an invalid identifier)
+fn e2e_data(id: u8, mask: u32, running: bool, pos: u8) -> Result<bool, Fail> {
     let cfg: &'static MockConfig = inproc::mock_cfg(if running { Mode::AllIts } else { Mode::SanityIts }, false);
     let (tx, rx) = flume::unbounded::<StatType>();
     let mut v: CdpRunningValidator<RdhCru, MockConfig> = CdpRunningValidator::new(cfg, tx);
@@ -235,15 +237,24 @@ fn e2e_data(id: u8, mask: u32, running: bool) -> Result<bool, Fail> {
     v.check(&ihw(mask));
     v.check(&tdh(&t));
     let mut w = [0x11u8; 10];
+    if pos == 1 {
+        // preceding data word: an active inner-barrel lane if there is one (whatever is reported for it is ignored)
+        let lane = (0..9u8).find(|l| mask & (1 << l) != 0).unwrap_or(0);
+        w[9] = 0x20 | lane;
+        v.check(&w);
+    }
     w[9] = id;
     v.check(&w);
     drop(v);
-    let off = 0x1000 + 64 + 20;
+    let off = 0x1000 + 64 + 20 + 10 * pos as u64;
+    let before = off - 10;
     let mut reported = false;
     while let Ok(s) = rx.try_recv() {
         if let StatType::Error(e) = s {
             if e.starts_with(&format!("{off:#X}:")) {
                 reported = true;
+            } else if pos == 1 && e.starts_with(&format!("{before:#X}:")) {
+                // about the preceding word
             } else {
                 return Err(Fail::new("C11:data:e2e-unexpected-error", format!("unexpected error elsewhere: {e}"), json!({"id": id, "mask": mask})));
             }
@@ -264,15 +275,18 @@ fn data_enum_case(i: u64, w: &Worker) -> CaseResult {
     let reported_ref = data_predicates(id, mask)?;
     let mut out = CaseOut::default();
     // end to end (ids that are other legal words in the data state are not data words)
-    if id != ID_TDT && id != ID_CDW {
+    for pos in [0u8, 1] {
+        if id == ID_TDT || (id == ID_CDW && pos == 0) {
+            continue;
+        }
         for running in [true, false] {
-            let got = e2e_data(id, mask, running)?;
+            let got = e2e_data(id, mask, running, pos)?;
             let want = ref_data_word_reported(id, mask, running);
             if got != want {
                 return Err(Fail::new(
                     format!("C11:data:e2e-{}", if want { "not-reported" } else { "reported-wrongly" }),
-                    format!("word with id {id:#04X} (IHW active lanes {mask:#X}, running checks {running}): reported={got}, documented rule says {want}"),
-                    json!({"id": id, "mask": mask, "running": running}),
+                    format!("word with id {id:#04X} at data position {pos} (IHW active lanes {mask:#X}, running checks {running}): reported={got}, documented rule says {want}"),
+                    json!({"id": id, "mask": mask, "running": running, "position": pos}),
                 ));
             }
         }
@@ -294,8 +308,9 @@ fn data_random_case(t: &mut Tape, _w: &Worker) -> CaseResult {
         let id = if t.chance(1, 2) { *t.pick(&OL_IDS) } else { t.u8() };
         let mask = t.u32() & 0x0FFF_FFFF;
         let r = data_predicates(id, mask)?;
-        if id != ID_TDT && id != ID_CDW {
-            let got = e2e_data(id, mask, true)?;
+        let pos = t.below(2) as u8;
+        if id != ID_TDT && !(id == ID_CDW && pos == 0) {
+            let got = e2e_data(id, mask, true, pos)?;
             if got != r {
                 return Err(Fail::new(
                     format!("C11:data:e2e-{}", if r { "not-reported" } else { "reported-wrongly" }),
